@@ -356,6 +356,23 @@ func c05Must(sr *stepResult, what string) {
 
 var c05Protected = []byte(vmcommon.ElrondProtectedKeyPrefix) // "ELROND" (pinned on the Coq side)
 
+// c05IsContract: INDEPENDENT oracle for "the address is a contract address", written from the documented address layout
+// (address.go on the unchanged tree): longer than the 10-byte contract identifier, and either the all-zero address or
+// the first 8 bytes (identifier minus the 2 VM-type bytes) zero.  The VM-type bytes 8, 9 are NOT part of the test:
+// production contracts carry 05 00 there.  Never calls vmcommon.IsSmartContractAddress.
+func c05IsContract(a []byte) bool {
+	const idLen, vmTypeLen = 10, 2
+	if len(a) <= idLen {
+		return false
+	}
+	for _, b := range a[:idLen-vmTypeLen] {
+		if b != 0 {
+			return false
+		}
+	}
+	return true // covers the all-zero address as well
+}
+
 const (
 	c05P  = "ELRONDesdt"
 	c05R  = "ELRONDroleesdt"
@@ -387,7 +404,7 @@ func c05MonSaveKV(c *ctx, w *hWorld, pre []map[string]*hAccount, sr *stepResult,
 	switch {
 	case !bytes.Equal(cs.Caller, cs.Rcpt):
 		reason = "caller != recipient"
-	case vmcommon.IsSmartContractAddress(cs.Caller):
+	case c05IsContract(cs.Caller):
 		reason = "caller is a contract address"
 	case !cs.Snd:
 		reason = "caller account not local"
@@ -714,6 +731,31 @@ func c05SaveKVFamily(c *ctx, u *universe, mons []c05Mon, wide bool) {
 		run(u.SC, u.SC, false, bigGas, k, []byte("v"))
 		run(u.U[0], u.U[0], true, cost, k, []byte("v")) // gas exactly the base cost
 	}
+	// contract / near-contract caller shapes writing to themselves on their own shard (unknown addresses live on shard 0),
+	// sender account local: 8 zero bytes + VM type 05 00 (production shape), other VM types, all-zero, 11 bytes,
+	// and user look-alikes (10 bytes, only 7 leading zeros)
+	shape := func(vm0, vm1 byte, n int, tail byte) []byte {
+		a := make([]byte, n)
+		if n > 9 {
+			a[8], a[9] = vm0, vm1
+		}
+		for i := 10; i < n; i++ {
+			a[i] = tail
+		}
+		return a
+	}
+	user7 := shape(5, 0, 32, 0x44)
+	user7[7] = 1
+	for si, cl := range [][]byte{u.K[0], shape(5, 0, 32, 0x77), shape(5, 0, 32, 0), shape(1, 0, 32, 0x55), shape(0xff, 0xff, 32, 0x66), shape(0, 5, 32, 0x21),
+		shape(0, 0, 32, 0), shape(0, 0, 32, 0x31), shape(5, 0, 11, 0x41), shape(5, 0, 10, 0), shape(0, 0, 10, 0), user7} {
+		for _, k := range [][]byte{[]byte("k1"), []byte("ELRON"), []byte("elrond"), []byte("ELROND"), []byte("ELRONDesdtTKA-a1b2c3"), nil} {
+			for _, v := range [][]byte{[]byte("v"), nil} {
+				c.count(fmt.Sprintf("c05/savekv/caller-shape-%02d/contract=%v", si, c05IsContract(cl)))
+				run(cl, cl, true, bigGas, k, v)
+				run(cl, cl, true, bigGas, []byte("a"), []byte("1"), k, v)
+			}
+		}
+	}
 	// several pairs: later pair wins, delete after write, a protected key in first / middle / last position, odd counts
 	pick := func() []byte { return keys[c.rng.Intn(len(keys))] }
 	free := [][]byte{[]byte("k1"), []byte("k2"), []byte("E"), []byte("ELRON"), []byte("elrond"), []byte("ELROnDx"), nil}
@@ -924,7 +966,7 @@ func init() {
 		u := newUniverse()
 		wide := c.thorough() || c.widen
 		runtime.GOMAXPROCS(1) // sequential run; exec reads runtime.MemStats around every call (stop-the-world)
-		c.rep.Rule = "Monitors on the real built-ins, after every executed call, over the complete before/after diff of every account on every shard (storage cells and balance/owner/user-name/developer-reward fields): (1) SaveKeyValue never changes a key with prefix ELROND, is accepted only for caller = recipient, non-contract, local caller, pair list without protected key, and leaves the caller's storage equal to the fold of the listed pairs (later pair wins, empty value deletes) with nothing else changed; (2) frame: every changed cell lies in footprint(call) = keys ELRONDesdt+tok+nonce / ELRONDroleesdt+tok / ELRONDnonce+tok of tokens named in the arguments (or destination-side payload), in caller, recipient, address argument (NFT / multi transfer destination, new create-role owner) or the shard's system account (pause flag), account-level functions only owner / user name / developer reward / balance; rejected calls change nothing. Families: SaveKeyValue enumeration (keys of every length 0..12 in every prefix relation to ELROND, case variants, live token / role / counter keys, values incl. empty and unchanged, 1-4 pairs with repeats, odd counts, 7 caller / presence / gas identities); scripted tours of all 23 functions (origin and destination side, same and cross shard, deliveries) on 1-3 shard worlds with bystander holdings; explicit id‖nonce aliasing scenarios (F4a fixed, F4b known finding); random walks (all generator families). Every executed call can be re-evaluated in the Coq model (status + full post-state). distinct = distinct (world state, operation)."
+		c.rep.Rule = "Monitors on the real built-ins, after every executed call, over the complete before/after diff of every account on every shard (storage cells and balance/owner/user-name/developer-reward fields): (1) SaveKeyValue never changes a key with prefix ELROND, is accepted only for caller = recipient, non-contract, local caller, pair list without protected key, and leaves the caller's storage equal to the fold of the listed pairs (later pair wins, empty value deletes) with nothing else changed; (2) frame: every changed cell lies in footprint(call) = keys ELRONDesdt+tok+nonce / ELRONDroleesdt+tok / ELRONDnonce+tok of tokens named in the arguments (or destination-side payload), in caller, recipient, address argument (NFT / multi transfer destination, new create-role owner) or the shard's system account (pause flag), account-level functions only owner / user name / developer reward / balance; rejected calls change nothing. Families: SaveKeyValue enumeration (keys of every length 0..12 in every prefix relation to ELROND, case variants, live token / role / counter keys, values incl. empty and unchanged, 1-4 pairs with repeats, odd counts, 7 caller / presence / gas identities, 12 contract / near-contract caller shapes incl. VM-type bytes 05 00 judged by an oracle independent of IsSmartContractAddress); scripted tours of all 23 functions (origin and destination side, same and cross shard, deliveries) on 1-3 shard worlds with bystander holdings; explicit id‖nonce aliasing scenarios (F4a fixed, F4b known finding); random walks (all generator families). Every executed call can be re-evaluated in the Coq model (status + full post-state). distinct = distinct (world state, operation)."
 		c05SetExecStream(c, c05ProjState)
 		mons := []c05Mon{c05MonSaveKV, c05MonFrame}
 		c05SaveKVFamily(c, u, mons, wide)
